@@ -32,12 +32,15 @@ PROPS = {
     "C05": dict(run="^TestC05$", shards=(4, 16), deadline=(300, 1800)),
     "C06": dict(run="^TestC06$", shards=(4, 16), deadline=(300, 1800)),
     "C07": dict(run="^TestC07$", shards=(4, 16), deadline=(300, 1800)),
+    "C08": dict(run="^TestC08$", shards=(4, 16), deadline=(300, 1800)),
     "C09": dict(run="^TestC09$", shards=(4, 16), deadline=(300, 1800)),
     "C10": dict(run="^TestC10$", shards=(4, 16), deadline=(300, 1800)),
     "C11": dict(run="^TestC11$", shards=(4, 16), deadline=(300, 1800)),
     "C14": dict(run="^TestC14$", shards=(4, 16), deadline=(300, 1800)),
+    "C18": dict(run="^TestC18$", shards=(4, 16), deadline=(600, 2400), race=True),
     "C19": dict(run="^TestC19$", shards=(4, 16), deadline=(300, 1800)),
     "C12": dict(run="^TestC12$", shards=(4, 16), deadline=(300, 1800)),
+    "C15": dict(run="^TestC15$", shards=(4, 16), deadline=(300, 1800)),
     "C16": dict(run="^TestC16$", shards=(4, 16), deadline=(300, 1800)),
     "C17": dict(run="^TestC17$", shards=(4, 16), deadline=(300, 1800)),
     "C13": dict(run="^TestC13$", shards=(1, 4), deadline=(120, 900)),
